@@ -43,7 +43,7 @@ pub fn run(prop: &str, tier: Tier, seed: u64) -> i32 {
   report.absorb("ops", stats, found);
   // Long histories on small graphs.
   if report.violations.is_empty() {
-    let (shards, cases, min_ops, max_ops) = match tier { Tier::Quick => (16, 40, 500, 1500), Tier::Thorough => (16, 1500, 500, 4000) };
+    let (shards, cases, min_ops, max_ops) = match tier { Tier::Quick => (16, 40, 500, 1500), Tier::Thorough => (16, 400, 500, 4000) };
     let cfg = SearchCfg { prop, label: "ops", seed: seed ^ 0x10f6, shards, cases_per_shard: cases, max_shrink_iters: 600 };
     let (stats, found) = driver::search(&cfg, &known, || dag::long_case_strategy(7, min_ops, max_ops), |c, s| { let r = check(c, which, s); s.class("long_history_case"); r }, |c| dag::pretty(c));
     report.extra.insert("long_history_cases".into(), json!(stats.evaluations));
